@@ -130,7 +130,8 @@ class ComplexType(BaseType):
         )
 
     def _to_hash_string(self) -> str:
-        return type(self).__name__ + "/" + ",".join(map(get_hash_string, self.types))
+        # Brackets keep nested members apart: Union[List[Union[a, b]], c] is not Union[List[Union[a, b, c]]]
+        return type(self).__name__ + "/[" + ",".join(map(get_hash_string, self.types)) + "]"
 
 
 class DOptional(SingleType):
